@@ -155,6 +155,7 @@ def api_call(ctx, name):
     if name == "genemetrics":
         cna = bins(ctx, 3)
         seg = seg_of(ctx, cna)
+        seg["cn"] = 4  # a column the bins do not have (as after `call`)
         return [cna, seg], lambda: reports.do_genemetrics(cna, seg, 0.1, 1, False, False, True)
     if name == "breaks":
         cna = bins(ctx, 4)
@@ -313,6 +314,13 @@ class RngStub:
         v = self.ctx.choice(f"draw{self.k}", list(range(lo, hi)))
         return np.full(size, v, dtype=int)
 
+    def randn(self, *shape):
+        if self.rs is not None:
+            return self.rs.randn(*shape)
+        self.k += 1
+        v = self.ctx.choice(f"noise{self.k}", [-1.0, 0.0, 1.5])
+        return np.full(shape, v, dtype=float)
+
     def __getattr__(self, name):
         return getattr(np.random, name)
 
@@ -328,6 +336,8 @@ def h_rng(ctx, api):
             return lambda: list(fix.center_by_window(cna, 0.5, np.array([0.5, 0.5, 0.5, 0.25])).data["log2"])
         if api == "bootstrap":
             return lambda: list(segmetrics.confidence_interval_bootstrap(obj_col(vals), np.array([0.5, 1.0, 0.25]), 0.5, 4))
+        if api == "bootstrap_smoothed":
+            return lambda: list(segmetrics.confidence_interval_bootstrap(obj_col(vals), np.array([0.75, 0.9375, 0.4375]), 0.5, 4, True))
         cna = make_cna({"chromosome": ["chr1"] * n, "start": [0, 10, 20], "end": [10, 20, 30], "gene": ["g"] * n, "log2": list(vals)})
 
         def run():
@@ -416,6 +426,6 @@ APIS = [
 
 HARNESSES = [
     Harness("frame", h_frame, [{"api": a} for a in APIS], covers=["reached"], wall_s=300, thorough_wall_s=1500, keep_uf=True, nonce_fork=False),
-    Harness("rng_independence", h_rng, [{"api": a} for a in ("center_by_window", "bootstrap", "shuffle")], covers=["reached"], wall_s=300),
+    Harness("rng_independence", h_rng, [{"api": a} for a in ("center_by_window", "bootstrap", "bootstrap_smoothed", "shuffle")], covers=["reached"], wall_s=300),
     Harness("ensure_path", h_ensure_path, [{"k": 1}, {"k": 2}, {"k": 3}], covers=["gap in the suffixes", "nothing pre-existing"], wall_s=120),
 ]
